@@ -20,7 +20,8 @@ EXPLANATION = (
     "of all panics (bounds checks, arithmetic, BLAS failures), termination of data-dependent inner loops."
     " (R14) match arms that panic (unreachable!) on a variant of a crate function's result are dead: the callee never constructs that variant."
     " (R15) no panicking std conversion (Duration::from_secs_f64/f32) is applied to a settings field; (R16) the cone clean-up keeps a cone only after the type-independent test nvars() != 0."
-    " (R17) every checkpoint path returning Fail has set a terminal status or runs under status == InsufficientProgress.")
+    " (R17) every checkpoint path returning Fail has set a terminal status or runs under status == InsufficientProgress."
+    " (R18) compute_barrier of every cone evaluates the barrier at (z + alpha dz, s + alpha ds), each component pairing a point with its own direction (a crossed component drives the exponential cone's Wright-omega evaluation out of its domain: panic); (R19) every scratch vector taken out of self with mem::take is stored back on every returning path.")
 ASSUMPTIONS = [
     'rustc MIR construction and trait resolution are correct',
     'iteration counter does not overflow u32 (max_iter is u32 and the loop stops at equality)',
@@ -903,6 +904,37 @@ def fail_sets_status(rep, F, tag):
     R.guard(body)
 
 
+def scratch_restored(rep, F, tag):
+    """The nonsymmetric cones borrow their scratch vectors by std::mem::take and put them back before returning.  A return between the two leaves an
+    empty vector behind: the next use (the combined-direction line search of the same iteration, compute_barrier, the next solve) fails a length
+    assertion - a panic inside solve()."""
+    R = rep.rule('C04.R19', 'every scratch buffer taken out of self with mem::take is stored back on every returning path')
+
+    def body():
+        n = 0
+        for f in F.fns:
+            tk = [c for c in f.calls if c.callee.name == 'take' and (c.callee.path or '').endswith('mem::take') and c.args]
+            fields = sorted(set(canon(f.sym_operand(c.args[0])) for c in tk))
+            fields = [x for x in fields if x.startswith('self.')]
+            if not fields:
+                continue
+            for val, ret, ev, tr in Walker(f, cut_loops=True, local_stores=True).leaves():
+                if ret[0] not in ('s', 'c'):
+                    continue
+                for fld in fields:
+                    taken = [i for i, e in enumerate(ev) if e[0] == 'call' and e[1] == 'take' and str(e[2]) == 'take(%s)' % fld]
+                    if not taken:
+                        continue
+                    n += 1
+                    back = [i for i, e in enumerate(ev) if e[0] == 'store' and str(e[1]) == fld and i > taken[-1]]
+                    R.check(bool(back), 'restored|%s|%s%s' % (f.name, fld.rsplit('.', 1)[-1], tag),
+                            '%s returns on the path %s without storing %s back after mem::take: the scratch vector stays empty and the next use panics on its length' % (
+                                f.name, {k[:40]: v for k, v in val.items()}, fld), f.loc())
+        R.check(n >= 3, 'instances' + tag, 'only %d take/restore paths analysed' % n)
+
+    R.guard(body)
+
+
 def run(ctx, rep, tier):
     for cfg in CONFIGS:
         F = ctx.facts(cfg)
@@ -924,6 +956,9 @@ def run(ctx, rep, tier):
         settings_conversions(rep, F, tag)
         empty_cones_dropped(rep, F, tag)
         fail_sets_status(rep, F, tag)
+        scratch_restored(rep, F, tag)
+        from . import steplen
+        steplen.barrier_trial_points(rep, F, tag, 'C04.R18')
         shared.status_provenance(rep, F, E, tag, 'C04.R12', statuses=('Solved',), full_fn='check_convergence_full', slot=9)
         # degenerate cones (empty, singleton) are collapsed before anything else sees the cone list
         from . import c05
